@@ -10,8 +10,8 @@ Definition gen_facts : facts := mkFacts
   [(UNeg, K_MINUS); (UNot, K_LOGICAL_NOT)]
   [(BMul, K_TIMES); (BAdd, K_PLUS); (BSub, K_MINUS); (BDiv, K_DIVIDE); (BPow, K_POWER); (BFloorDiv, K_FUNCTION_QUOTIENT)]
   [(CEq, K_RELATIONAL_EQ); (CNe, K_RELATIONAL_NEQ); (CLt, K_RELATIONAL_LT); (CLe, K_RELATIONAL_LEQ); (CGt, K_RELATIONAL_GT); (CGe, K_RELATIONAL_GEQ)]
-  [CTest; CBody; COrelse]
-  CmpFirstOnly CallAnonymous false false
+  [CBody; CTest; COrelse]
+  CmpAndPairs CallRaise true true
   ["math"%string; "np"%string; "numpy"%string]
   [("e"%string, ME); ("pi"%string, MPi); ("inf"%string, MInf); ("nan"%string, MNan)]
-  Reactant NsSignAbs IaSetVariable true.
+  Product NsSignAbs IaSetSymbol true.
